@@ -276,7 +276,9 @@ func appendNamedSet(r []rune, name string, opts CharsetOptions) ([]rune, error) 
 	}
 	if t := unicode.Scripts[name]; t != nil {
 		r = appendTable(r, t)
-		r = appendTable(r, unicode.FoldScript[name])
+		if opts.Fold {
+			r = appendTable(r, unicode.FoldScript[name])
+		}
 		return r, nil
 	}
 	if t := unicode.Properties[name]; t != nil {
